@@ -149,8 +149,11 @@ def run(ctx, res):
                      "UTC" if zone in ("UTC", "Etc/UTC") and tzid_from_tzinfo(z0) == "UTC" else zone)
             walls = walls_for(zone, rng, nw)
             sources = [("provider", z0)]
-            other = pytz.timezone(zone) if provider == "zoneinfo" else zoneinfo.ZoneInfo(zone)
-            sources.append(("other-library", other))
+            try:
+                other = pytz.timezone(zone) if provider == "zoneinfo" else zoneinfo.ZoneInfo(zone)
+                sources.append(("other-library", other))
+            except Exception:  # noqa: BLE001  -- the two zone databases do not list exactly the same ids
+                res.dist("zone id unknown to the other library")
             du = dateutil.tz.gettz(zone)
             for wi, w in enumerate(walls):
                 wall = naive(w)
